@@ -2,4 +2,4 @@
 From Coq Require Import Extraction ExtrOcamlBasic.
 Require Import Celma.Common.Res Celma.Log.AttrModel Celma.Log.FormatModel.
 Extraction Language OCaml.
-Extraction "../ocaml/gen/c16_model.ml" run world_init.
+Extraction "../ocaml/gen/c16_model.ml" run run_pinned world_init.
